@@ -326,6 +326,46 @@ func (a *Adv) MembershipProbes() int {
 				}) {
 					n++
 				}
+				// the same with the supplement element dressed up as "created earlier in this block" (unassigned leaf index
+				// and no proof - both at once): v1 parents created in the block are found by the validator itself, so a
+				// supplement never carries such an element, and one that does is no member of anything
+				blk2 := CloneBlock(blk)
+				if a.emit(blk2, "v1-supplement/siacoin/value-up-and-paid-out-relabelled-ephemeral", "reject", nil, func(bs *consensus.V1BlockSupplement) {
+					for i := range bs.Transactions[ti].SiacoinInputs {
+						if el := &bs.Transactions[ti].SiacoinInputs[i]; el.ID == id {
+							el.SiacoinOutput.Value = el.SiacoinOutput.Value.Add(one)
+							el.StateElement = types.StateElement{LeafIndex: types.UnassignedLeafIndex}
+						}
+					}
+				}) {
+					n++
+				}
+				// and a parent that never existed at all: a fresh transaction spends an invented ID whose element, with the
+				// unassigned leaf index and no proof, is slipped into the supplement
+				{
+					lock := MakeLock(LockSpec{Kind: 0, K1: 1})
+					var fid types.SiacoinOutputID
+					copy(fid[:], id[:])
+					fid[0] ^= 0x5A
+					if _, exists := a.G.C.Store.SC[fid]; !exists && a.v1Allowed() {
+						txn := types.Transaction{SiacoinInputs: []types.SiacoinInput{{ParentID: fid, UnlockConditions: *lock.UC}},
+							SiacoinOutputs: []types.SiacoinOutput{{Value: types.Siacoins(1000), Address: types.Address{0xF0}}}}
+						SignV1(a.CS, &txn, false)
+						blk3 := CloneBlock(a.Honest)
+						blk3.Transactions = append(blk3.Transactions, txn)
+						at := len(blk3.Transactions) - 1
+						if a.emit(blk3, "v1-supplement/siacoin/never-created-parent-dressed-as-ephemeral", "reject", nil, func(bs *consensus.V1BlockSupplement) {
+							for len(bs.Transactions) <= at {
+								bs.Transactions = append(bs.Transactions, consensus.V1TransactionSupplement{})
+							}
+							bs.Transactions[at].SiacoinInputs = append(bs.Transactions[at].SiacoinInputs, types.SiacoinElement{ID: fid,
+								StateElement:  types.StateElement{LeafIndex: types.UnassignedLeafIndex},
+								SiacoinOutput: types.SiacoinOutput{Value: types.Siacoins(1000), Address: lock.Address()}})
+						}) {
+							n++
+						}
+					}
+				}
 				// leaf index / proof of another element
 				for _, name := range []string{"leaf-index^1", "leaf-index^2^40", "proof-bitflip", "maturity-down"} {
 					nm := name
